@@ -23,9 +23,10 @@ var c09Base = map[string]string{
 	"tsconfig.base.json":            `{"compilerOptions":{"useDefineForClassFields":false}}`,
 	"package.json":                  `{"name":"root"}`,
 	"src/entry.tsx":                 "import {a} from './a';\nimport b from './b';\nimport './c.css';\nimport d from './d.json';\nimport p from 'pkg';\nimport {E} from './enum';\nimport {K} from './klass';\nconsole.log(a, b, d, p, E.X, new K, <span/>);\n",
-	"src/second.ts":                 "import {a} from './a';\nimport {E} from './enum';\nexport const second = [a, E.Y];\n",
+	"src/second.ts":                 "import {a} from './a';\nimport {a as unusedA} from './a';\nimport {E} from './enum';\nimport {D} from './deco';\nexport const second = [a, E.Y, D];\n",
+	"src/deco.ts":                   "function dec(...args: any[]): any {}\n@dec export class D { @dec m() {} }\n",
 	"src/a.js":                      "export const a = 'a1';\n",
-	"src/b.jsx":                     "export default <div>b</div>;\n",
+	"src/b.jsx":                     "export default <div>b<>f</></div>;\n",
 	"src/c.css":                     "a { color: red }\n",
 	"src/d.json":                    "{\"d\": 1}",
 	"src/enum.ts":                   "export const enum E { X = 1, Y = 2 }\n",
@@ -68,7 +69,7 @@ func toggleFile(path, content string) func(m map[string]string) {
 var c09Edits = []c09Edit{
 	{"edit-a-same-length", toggle("src/a.js", "export const a = 'a1';\n", "export const a = 'a2';\n")},
 	{"edit-a-different-length", toggle("src/a.js", "export const a = 'a1';\n", "export const a = 'a-longer';\n")},
-	{"break-b", toggle("src/b.jsx", "export default <div>b</div>;\n", "export default <div>b</div;\n")},
+	{"break-b", toggle("src/b.jsx", "export default <div>b<>f</></div>;\n", "export default <div>b<>f</></div;\n")},
 	{"shadow-a-with-ts", toggleFile("src/a.ts", "export const a: string = 'a-from-ts';\n")},
 	{"delete-d-json", toggleFile("src/d.json", "{\"d\": 1}")},
 	{"edit-d-json", toggle("src/d.json", "{\"d\": 1}", "{\"d\": 2}")},
@@ -97,7 +98,21 @@ var c09Edits = []c09Edit{
 	}},
 	{"klass-edit", toggle("src/klass.ts", "export class K { x; y = 1 }\n", "export class K { x; y = 2; z }\n")},
 	{"add-react-shim", toggleFile("node_modules/react/jsx-runtime.js", "exports.jsx = exports.jsxs = function(){}; exports.Fragment = 0;\n")},
+	// ---- group B: every other tsconfig.json setting esbuild reads (explored with the cjs/iife configurations, see c09GroupB)
+	{"tsconfig-always-strict", toggle("tsconfig.json", `{"extends":"./tsconfig.base.json","compilerOptions":{"jsx":"react"}}`, `{"extends":"./tsconfig.base.json","compilerOptions":{"jsx":"react","alwaysStrict":true}}`)},
+	{"tsconfig-strict", toggle("tsconfig.json", `{"extends":"./tsconfig.base.json","compilerOptions":{"jsx":"react"}}`, `{"extends":"./tsconfig.base.json","compilerOptions":{"jsx":"react","strict":true}}`)},
+	{"tsconfig-experimental-decorators", toggle("tsconfig.json", `{"extends":"./tsconfig.base.json","compilerOptions":{"jsx":"react"}}`, `{"extends":"./tsconfig.base.json","compilerOptions":{"jsx":"react","experimentalDecorators":true}}`)},
+	{"tsconfig-verbatim-module-syntax", toggle("tsconfig.json", `{"extends":"./tsconfig.base.json","compilerOptions":{"jsx":"react"}}`, `{"extends":"./tsconfig.base.json","compilerOptions":{"jsx":"react","verbatimModuleSyntax":true}}`)},
+	{"tsconfig-preserve-value-imports", toggle("tsconfig.json", `{"extends":"./tsconfig.base.json","compilerOptions":{"jsx":"react"}}`, `{"extends":"./tsconfig.base.json","compilerOptions":{"jsx":"react","preserveValueImports":true}}`)},
+	{"tsconfig-imports-not-used-as-values", toggle("tsconfig.json", `{"extends":"./tsconfig.base.json","compilerOptions":{"jsx":"react"}}`, `{"extends":"./tsconfig.base.json","compilerOptions":{"jsx":"react","importsNotUsedAsValues":"preserve"}}`)},
+	{"tsconfig-jsx-fragment-factory", toggle("tsconfig.json", `{"extends":"./tsconfig.base.json","compilerOptions":{"jsx":"react"}}`, `{"extends":"./tsconfig.base.json","compilerOptions":{"jsx":"react","jsxFragmentFactory":"Frag"}}`)},
+	{"base-always-strict", toggle("tsconfig.base.json", `{"compilerOptions":{"useDefineForClassFields":false}}`, `{"compilerOptions":{"useDefineForClassFields":false,"alwaysStrict":true}}`)},
 }
+
+// c09GroupA: number of edits of the main search; the edits after it form group B together with the named ones
+const c09GroupA = 23
+
+var c09GroupBExtra = []string{"base-use-define", "delete-tsconfig", "klass-edit"}
 
 func treeHash(m map[string]string) string {
 	var ks []string
@@ -174,7 +189,13 @@ var c09Cfgs = []c09Cfg{
 	}},
 	{"nobundle", func(o *api.BuildOptions) {}},
 	{"bundle-splitting", func(o *api.BuildOptions) { o.Bundle = true; o.Splitting = true }},
+	{"nobundle-cjs", func(o *api.BuildOptions) { o.Format = api.FormatCommonJS }},
+	{"bundle-iife", func(o *api.BuildOptions) { o.Bundle = true; o.Format = api.FormatIIFE }},
 }
+
+// configurations of the main search (group A) and of the tsconfig-settings search (group B)
+var c09CfgsA = []int{0, 1, 2, 3}
+var c09CfgsB = []int{2, 4, 5}
 
 func c09Options(dir string, cfg c09Cfg) api.BuildOptions {
 	o := api.BuildOptions{AbsWorkingDir: dir, EntryPoints: []string{"src/entry.tsx", "src/second.ts"}, Outdir: "out", Write: false, LogLevel: api.LogLevelSilent, Format: api.FormatESModule,
@@ -218,7 +239,7 @@ func c09ResultKey(dir string, r api.BuildResult) string {
 }
 
 func runC09(c *Check) {
-	c.Rule = "explicit-state search over edit histories of a 16-file project (two entry points, a.js/a.ts shadow pair, JSX, CSS, JSON, const enum, class fields, node_modules package, tsconfig with extends): 23 mostly involutive edits (same-length and different-length content edits, syntax error/repair, create/delete/shadow modules, package.json main/type/sideEffects/exports, nearer node_modules, tsconfig jsx/jsxFactory/jsxImportSource/paths/target/useDefineForClassFields(base)/delete, enum/css/json edits, file<->directory); every history of length<=3 (thorough 4) with a Rebuild() after every edit x 4 configurations x 2 mtime regimes; oracle: Rebuild() == fresh api.Build of the same tree, and the watch predicates of the previous build report a dirty path whenever the fresh result changed; states = distinct (tree, configuration) pairs reached, transitions = rebuilds"
+	c.Rule = "explicit-state search over edit histories of a 16-file project (two entry points, a.js/a.ts shadow pair, JSX, CSS, JSON, const enum, class fields, node_modules package, tsconfig with extends): 31 mostly involutive edits (same-length and different-length content edits, syntax error/repair, create/delete/shadow modules, package.json main/type/sideEffects/exports, nearer node_modules, tsconfig jsx/jsxFactory/jsxImportSource/paths/target/useDefineForClassFields(base)/delete and, as a second search with cjs/iife configurations, alwaysStrict/strict/experimentalDecorators/verbatimModuleSyntax/preserveValueImports/importsNotUsedAsValues/jsxFragmentFactory/alwaysStrict(base), enum/css/json edits, file<->directory); every history of length<=3 (thorough 4) with a Rebuild() after every edit x 4 configurations x 2 mtime regimes; oracle: Rebuild() == fresh api.Build of the same tree, and the watch predicates of the previous build report a dirty path whenever the fresh result changed; states = distinct (tree, configuration) pairs reached, transitions = rebuilds"
 	c.Assump = []string{"edits are applied while no build is running", "mtime regime 'past' sets strictly increasing mtimes far in the past (usable mod keys), regime 'now' uses the real clock (mod keys inside the safety gap)"}
 	maxLen := 3
 	if c.Tier != "quick" {
@@ -226,27 +247,40 @@ func runC09(c *Check) {
 	}
 	root := scratchRoot("c09")
 	defer os.RemoveAll(root)
-	// enumerate histories
-	var hist [][]int
-	var rec func(cur []int)
-	rec = func(cur []int) {
-		if len(cur) > 0 {
-			hist = append(hist, append([]int{}, cur...))
-		}
-		if len(cur) == maxLen {
-			return
-		}
+	// enumerate histories: group A = the first c09GroupA edits x c09CfgsA; group B = the tsconfig-setting edits
+	// (+ a few group A edits they interact with) x c09CfgsB
+	if len(c09Edits) < c09GroupA {
+		fatalf("c09: edit table shorter than group A")
+	}
+	groupA := []int{}
+	for e := 0; e < c09GroupA; e++ {
+		groupA = append(groupA, e)
+	}
+	groupB := []int{}
+	for e := c09GroupA; e < len(c09Edits); e++ {
+		groupB = append(groupB, e)
+	}
+	for _, n := range c09GroupBExtra {
 		for e := range c09Edits {
-			rec(append(cur, e))
+			if c09Edits[e].name == n {
+				groupB = append(groupB, e)
+			}
 		}
 	}
-	rec(nil)
-	// only maximal histories need to be run (every prefix is checked on the way)
-	var runs [][]int
-	for _, h := range hist {
-		if len(h) == maxLen {
-			runs = append(runs, h)
+	enum := func(alpha []int) [][]int {
+		var runs [][]int
+		var rec func(cur []int)
+		rec = func(cur []int) {
+			if len(cur) == maxLen {
+				runs = append(runs, append([]int{}, cur...)) // only maximal histories are run (every prefix is checked on the way)
+				return
+			}
+			for _, e := range alpha {
+				rec(append(cur, e))
+			}
 		}
+		rec(nil)
+		return runs
 	}
 	type job struct {
 		h      []int
@@ -254,16 +288,24 @@ func runC09(c *Check) {
 		regime string
 	}
 	var jobs []job
-	for hi, h := range runs {
-		for ci := range c09Cfgs {
-			if c.Tier == "quick" && (hi+ci)%2 != 0 {
-				continue
+	var runs [][]int
+	for gi, grp := range []struct {
+		alpha []int
+		cfgs  []int
+	}{{groupA, c09CfgsA}, {groupB, c09CfgsB}} {
+		rs := enum(grp.alpha)
+		runs = append(runs, rs...)
+		for hi, h := range rs {
+			for k, ci := range grp.cfgs {
+				if c.Tier == "quick" && gi == 0 && (hi+k)%2 != 0 {
+					continue
+				}
+				regime := "past"
+				if (hi+k)%4 >= 2 {
+					regime = "now"
+				}
+				jobs = append(jobs, job{h, ci, regime})
 			}
-			regime := "past"
-			if (hi+ci)%4 >= 2 {
-				regime = "now"
-			}
-			jobs = append(jobs, job{h, ci, regime})
 		}
 	}
 	c.Set("histories", len(runs))
